@@ -17,8 +17,9 @@ Go pointer mutation becomes returned state; every Go `map[uint32]*Response` is a
 optional entries indexed by the key (`addResponse` only ever stores keys below
 `len(verifiers)`, so the map is an array of that length; entry `none` = key absent).
 The code modelled is the tree WITH the `fix:` commits c536de3 (nonce length), 4c3770c and c743079
-(deal without share / without share value: error before an aggregator exists) and 386c5d2
-(session id bound to the commitments).
+(deal without share / without share value: error before an aggregator exists), 386c5d2
+(session id bound to the commitments) and 5814a9f (a verifier's deal is certified only if the
+verifier itself approved it: field `approved`, `Verifier.DealCertified`).
 -/
 import DosModel.Model.Util
 
@@ -159,6 +160,8 @@ structure Verifier (S P : Type) where
   index : Nat
   vs : List P
   agg : Option (Agg S P)
+  /-- `approved` (fix 5814a9f): set when `ProcessEncryptedDeal` answered the deal with an approval -/
+  approved : Bool := false
   deriving DecidableEq, Repr
 
 def nonceSize : Nat := 12
@@ -285,7 +288,7 @@ def processEncryptedDeal (g : P) (v : Verifier S P) (e : EncDeal S P) (rnd : Nat
           let r : Response S P := { sid := sid, index := v.index, status := status, sig := .sign v.long sid v.index status rnd }
           match addResponse a1 r with
           | .error err => (v1, .error err)
-          | .ok a2 => ({ v with agg := some a2 }, .ok r)
+          | .ok a2 => ({ v with agg := some a2, approved := status }, .ok r)
 
 /-- `Verifier.ProcessResponse` -/
 def Verifier.processResponse (g : P) (v : Verifier S P) (r : Response S P) : Verifier S P × Option Err :=
@@ -313,18 +316,19 @@ def enoughApprovals (a : Agg S P) : Bool :=
 def Agg.certified (a : Agg S P) : Bool :=
   (List.range a.vs.length).all (fun i => hasResponse a i) && !a.badDealer && enoughApprovals a
 
-/-- `v.DealCertified()` (nil aggregator ⇒ false) -/
+/-- `Verifier.DealCertified()` (fix 5814a9f): `v.approved && v.aggregator.DealCertified()`
+(nil aggregator ⇒ false) -/
 def Verifier.dealCertified (v : Verifier S P) : Bool :=
-  match v.agg with
+  v.approved && (match v.agg with
   | none => false
-  | some a => a.certified
+  | some a => a.certified)
 
 /-- `Verifier.Deal()`: `none` = the nil dereference of a verifier that never opened a deal;
 `some none` = nil result -/
 def Verifier.dealOut (v : Verifier S P) : Option (Option (Deal S P)) :=
   match v.agg with
   | none => none
-  | some a => some (if enoughApprovals a && a.certified then a.deal else none)
+  | some a => some (if enoughApprovals a && (v.approved && a.certified) then a.deal else none)
 
 /-- set the status of the stored response of `idx` to approval (`r.Status = StatusApproval` through the shared pointer) -/
 def approveStored (rs : List (Option (Response S P))) (idx : Nat) : List (Option (Response S P)) :=
